@@ -227,7 +227,7 @@ Theorem C01_sinks_in_histories :
          VI c vv av ->
          temp_for c vv (a_xs av) k i h ->
          ufuse (wuw w) = None ->
-         (forall d : nat, In d (sink_dsts sk) -> d <> vid -> adm_vec c w d) ->
+         (forall d : nat, In d (sink_dsts sk) -> d <> vid -> adm_many c w d (sink_count sk d)) ->
          sp_sink c st (unext (wuw w)) vid av k i sk = Some r ->
          match
            apply_sink c vid (known_of a) h sk (put_vec vid (Some (with_len (N.of_nat i) vv)) (wuw w) w)
